@@ -61,6 +61,26 @@ pub fn vx_concat4(a: &str, b: &str, c: &str, d: &str) -> (r: String) ensures r@ 
 #[verifier::external_body]
 pub fn vx_concat5(a: &str, b: &str, c: &str, d: &str, e: &str) -> (r: String) ensures r@ == a@ + b@ + c@ + d@ + e@ { format!("{}{}{}{}{}", a, b, c, d, e) }
 
+pub uninterp spec fn spec_trim(s: Seq<char>) -> Seq<char>;
+pub uninterp spec fn spec_trim_end(s: Seq<char>) -> Seq<char>;
+#[verifier::external_body]
+pub fn vx_trim(a: &str) -> (r: &str) ensures r@ == spec_trim(a@) { a.trim() }
+#[verifier::external_body]
+pub fn vx_trim_end(a: &str) -> (r: &str) ensures r@ == spec_trim_end(a@) { a.trim_end() }
+#[verifier::external_body]
+pub fn vx_starts_with_char(a: &str, c: char) -> (r: bool) ensures r == (a@.len() > 0 && a@[0] == c) { a.starts_with(c) }
+#[verifier::external_body]
+pub fn vx_ends_with_char(a: &str, c: char) -> (r: bool) ensures r == (a@.len() > 0 && a@.last() == c) { a.ends_with(c) }
+#[verifier::external_body]
+pub fn vx_contains_char(a: &str, c: char) -> (r: bool) ensures r == a@.contains(c) { a.contains(c) }
+#[verifier::external_body]
+pub fn vx_starts_with_str(a: &str, b: &str) -> (r: bool) ensures r == (b@.len() <= a@.len() && a@.subrange(0, b@.len() as int) == b@) { a.starts_with(b) }
+#[verifier::external_body]
+pub fn vx_ends_with_str(a: &str, b: &str) -> (r: bool) ensures r == (b@.len() <= a@.len() && a@.subrange(a@.len() - b@.len(), a@.len() as int) == b@) { a.ends_with(b) }
+pub uninterp spec fn spec_contains_str(a: Seq<char>, b: Seq<char>) -> bool;
+#[verifier::external_body]
+pub fn vx_contains_str(a: &str, b: &str) -> (r: bool) ensures r == spec_contains_str(a@, b@) { a.contains(b) }
+
 #[verifier::external_body]
 pub fn vx_opaque_string() -> (r: String) { unimplemented!() }
 '''
@@ -88,6 +108,7 @@ TRUSTED_STR = [
     'vx_streq: str/String equality is equality of the char sequences (std PartialEq for str)',
     'vx_s / vx_char_to_string / vx_concatN: to_string, String::from, char::to_string and format!("{}{}") concatenation produce the obvious char sequences (std Display for str/String/char)',
     'vx_chars*: str::chars() yields the scalar values in order (count/nth/next accordingly)',
+    'vx_trim/starts_with/ends_with/contains shims: std str methods with the obvious contracts (trim and substring search left uninterpreted)',
     'vx_opaque_string: result of a format! that is not a pure concatenation is left uninterpreted (can only weaken what is provable)',
 ]
 TRUSTED_TOKEN = [
